@@ -31,3 +31,7 @@ _reg(ProdProp('C06', ['Ea.C06.replace_unique', 'Ea.C06.replace_gap_skip', 'Ea.C0
                       'Ea.C06.after_tries_matches', 'Ea.Zone.resolve_unique', 'Ea.Zone.resolve_fold', 'Ea.Zone.resolve_gap']))
 _reg(ProdProp('C13', ['Ea.C13.op_result_from_inner', 'Ea.C13.offset_exact', 'Ea.C13.bound_is_candidate', 'Ea.C13.earliest_clamp',
                       'Ea.C13.latest_clamp', 'Ea.C13.earliest_latest_result', 'Ea.C13.jitter_window', 'Ea.C13.jitter_eps_matches']))
+_reg(ProdProp('C14', ['Ea.C14.offset_chain_injective', 'Ea.C14.jitter_nonneg_attribution', 'Ea.C14.jitter_chain_nonneg',
+                      'Ea.C14.C14_partial', 'Ea.C14.jitter_negative_double_fires']))
+_reg(ProdProp('C16', ['Ea.C16.loop_iterations_bounded', 'Ea.C16.loopNC_fst', 'Ea.C16.interval_sat_returns',
+                      'Ea.C16.interval_unsat_never_returns', 'Ea.C16.timeNext_outcomes', 'Ea.C16.C16_partial']))
